@@ -4,7 +4,8 @@ set -e
 cd "$(dirname "$0")"
 export GOFLAGS=-mod=mod GOPROXY=off GOSUMDB=off GOTOOLCHAIN=local
 mkdir -p .build/bin
-( cd coq && coq_makefile -f _CoqProject -o Makefile >/dev/null && timeout 3000 make -j16 >/dev/null )
+python3 -c "import importlib.machinery,importlib.util,sys; l=importlib.machinery.SourceFileLoader('chk','check'); m=importlib.util.module_from_spec(importlib.util.spec_from_loader('chk',l)); l.exec_module(m); m.coq_makefile()"
+( cd coq && timeout 3000 make -j16 >/dev/null )
 python3 - <<'PY'
 import subprocess, sys, os, shutil
 sys.path.insert(0, os.getcwd())
